@@ -185,6 +185,12 @@ def run_property(pid, tier="quick", sources=None, rules_only=None, write=True, q
             ctx.ob("call-resolution", pf, ERROR, p)
         else:
             ctx.ob("call-resolution", pf, INFO, "outside this property's files: " + p)
+    ctx.cur_rule = "MODEL"
+    for rel, line, text in getattr(ctx.P, "hygiene", []):
+        # what such a statement does to the classes and functions cannot be read off the definitions the rules
+        # look at: no verdict for any property (a statement in a file outside the property's scope may still
+        # patch a class inside it)
+        ctx.ob("program-model", "%s:%d" % (rel, line), ERROR, text)
     for rid, kw in todo:
         if rules_only and rid not in rules_only:
             continue
